@@ -170,7 +170,7 @@ class FastHierarchyAnalyzer(HierarchyAnalyzerBase):
             exclude.add(opt_idx_try)
             exclude.add(opt_idx_imp)
 
-        if not graph_instance.feasible:
+        if graph_instance is None or not graph_instance.feasible:
             raise RuntimeError('No more feasible graphs!')
 
         # Update imputation cache
